@@ -27,7 +27,7 @@ func init() {
 		Title: "mount prefix flows from NewPrefixedServer to routing and mux patterns",
 		Text: "The prefix field of the root node built by NewPrefixedServer is data-dependent on the prefix parameter (not a constant); ServeHTTP tests strings.HasPrefix and strips strings.TrimPrefix with that same field; " +
 			"AddToMux builds every pattern from that field.",
-		Props: []string{"C05"},
+		Props: []string{"C05", "C02"},
 		Floor: map[string]int{"v2": 4, "root": 4},
 		Run:   runR054,
 	})
